@@ -142,6 +142,9 @@ func replayOnCode(c *Ctx, prop, oblID, dir string) map[string]any {
 	}
 	tmpl := filepath.Join(verifRoot(), "replay", "templates", pkg, sanitizeFile(key)+"_test.go")
 	if _, err := os.Stat(tmpl); err != nil {
+		tmpl = filepath.Join(verifRoot(), "replay", "templates", pkg, "_package_test.go")
+	}
+	if _, err := os.Stat(tmpl); err != nil {
 		return map[string]any{"template": "none for " + pkg + "." + key, "failing_input_found": false}
 	}
 	pkgPath := c.repo
